@@ -1458,7 +1458,7 @@ def run(chk: core.Check):
                              "conv:reused-other-size", "conv:pp-qubits-swapped-away", "cqprobe", "cqprobe:array-before-used-var",
                              "cqprobe:converter-reused", "label-mixed",
                              "label-with-other-2q", "catmat", "cut:exhaustive", "cut:pp", "cut:heralded-after-pp", "place:checked",
-                             "place:two-qubit", "place:non-adjacent", "place:control-below-data", "swap-non-adjacent", "swap-with-postselection", "conv-postselection-is-pair-conjunction", "cyclic:True", "cyclic:False", "malformed"]
+                             "place:two-qubit", "place:non-adjacent", "place:control-below-data", "swap-non-adjacent", "swap-with-postselection", "conv-postselection-is-pair-conjunction", "psplan:checked", "psplan:nonempty", "psplan:moved-by-swap", "psplan:shared-qubit", "input:checked", "cyclic:True", "cyclic:False", "malformed"]
     import perceval as pcvl
     pcvl.random_seed(chk.seed)
     pool = Pool(chk, chk.pick(8, 12))
@@ -1642,6 +1642,93 @@ def check_placement(chk, label, case, n, ops, ob, p, g, tol, rep):
         fails = np_fails(ob, g, tol) if photons(ob) <= 7 else None
         chk.fail("violation" if fails else "broken", "conv-wiring", f"{label}: {bad}" +
                  (f"; logical table wrong: {fails}" if fails else ""), case)
+    if ps_ok:
+        check_postselection_plan(chk, label, case, n, ops, ob, p, g, tol, rep)
+
+
+def ps_leaves(e):
+    """the conditions of a conjunction, each as its sorted list of modes"""
+    if e is True:
+        return []
+    if "and" in e:
+        return [l for x in e["and"] for l in ps_leaves(x)]
+    return [sorted(e["c"])]
+
+
+def py_tracked_conditions(ops, kinds):
+    """independent expectation of the post-selection of a converted processor: for every post-processed CNOT, the
+    two rails of the two qubit positions its qubits occupy at the END of the circuit (later SWAPs move them).
+    -> (sorted list of conditions, some condition was moved by a SWAP, two CNOTs share a condition)"""
+    two = [o for o in ops if len(o["q"]) == 2]
+    it = iter([k for k in kinds if k in ("PostProcessed CNOT", "Heralded CNOT", "Heralded CZ")])
+    out, moved, total = set(), False, 0
+    for i, o in enumerate(two):
+        if o["g"] == "swap" or next(it, None) != "PostProcessed CNOT":
+            continue
+        pos = list(o["q"])
+        for later in two[i + 1:]:
+            if later["g"] == "swap":
+                x, y = later["q"]
+                pos = [y if v == x else x if v == y else v for v in pos]
+        moved = moved or pos != list(o["q"])
+        total += 2
+        out |= {(2 * v, 2 * v + 1) for v in pos}
+    return sorted(list(c) for c in out), moved, total > len(out)
+
+
+def check_postselection_plan(chk, label, case, n, ops, ob, p, g, tol, rep):
+    """round 8: the post-selection conditions the converted processor carries against the model's `planPS` (proved:
+    exactly the conditions of the post-processed CNOTs moved by the SWAPs that follow them, each on the two rails
+    of one qubit) and against an independent python tracking of the qubits; the default input state and the
+    photon-number filter against `inputState` / the qubit count"""
+    if "ps" not in rep:
+        chk.fail("broken", "psplan-model-missing", f"{label}: model {rep}", case)
+        return
+    real_list = ps_leaves(ps_json(ob["ps"]))
+    real = sorted(set(map(tuple, real_list)))
+    model = sorted(set(tuple(sorted(c)) for c in rep["ps"]))
+    tracked = sorted(set(tuple(sorted(c)) for c in rep["tracked"]))
+    want, moved, shared = py_tracked_conditions(ops, rep["kinds"])
+    want = sorted(map(tuple, want))
+    chk.branch("psplan:checked")
+    chk.count("psplan", f"{len(real)} conditions")
+    if real:
+        chk.branch("psplan:nonempty")
+    if moved:
+        chk.branch("psplan:moved-by-swap")
+    if shared:
+        chk.branch("psplan:shared-qubit")
+    chk.count("psplan-order", "same order as the model" if real_list == [sorted(c) for c in rep["ps"]] else
+              "other order")
+    if model != tracked or model != want:
+        chk.fail("broken", "psplan-model-inconsistent",
+                 f"{label}: planPS {model}, ppTracked {tracked}, python tracking {want}", case)
+        return
+    if len(real_list) != len(real):
+        chk.count("psplan", "repeated condition in the real post-selection")
+    if real != model:
+        fails = (np_fails(ob, g, tol) or np_fails(ob, g, tol, leak=True)) if photons(ob) <= 7 else None
+        chk.fail("violation" if fails else "broken", "conv-postselection-plan",
+                 f"{label}: the processor's post-selection conditions {real}, the post-processed CNOTs' qubits end "
+                 f"on {model}" + (f"; logical table / leakage wrong: {fails}" if fails else ""), case)
+        return
+    # default input state and photon-number filter
+    try:
+        inp = [int(x) for x in p.input_state]
+        flt = p.experiment.min_photons_filter if hasattr(p, "experiment") else p._min_detected_photons_filter
+    except Exception as e:
+        chk.fail("broken", "conv-input-state-unreadable", f"{label}: {type(e).__name__}: {e}", case)
+        return
+    chk.branch("input:checked")
+    zero = encode(ob["m"], ob["qubits"], ob["heralds"], [0] * len(ob["qubits"]))
+    if inp != rep["input"]:
+        direct = inp != [int(x) for x in zero]
+        chk.fail("violation" if direct else "broken", "conv-default-input",
+                 f"{label}: default input state {inp}, model {rep['input']}" +
+                 ("; it is not the encoding of the logical state |0...0> with the heralds" if direct else ""), case)
+    elif flt != rep["minPhotons"]:
+        chk.fail("violation" if (flt or 0) > len(ob["qubits"]) else "broken", "conv-min-photons-filter",
+                 f"{label}: min_detected_photons_filter {flt}, model {rep['minPhotons']} (one photon per qubit)", case)
 
 
 def pp_swapped_away(ops, kinds):
